@@ -365,3 +365,53 @@ func verifLemmaSequencerConsecutive(s *sequencer) (uint16, uint16) {
 //@   ensures ext_bytes [C20]: forall k, q :: 0 <= k && k < len(p.Header.Extensions) && 0 <= q && q < len(p.Header.Extensions[k].payload) ==> result0.Header.Extensions[k].payload[q] == p.Header.Extensions[k].payload[q]
 //@   ensures payload [C20]: len(result0.Payload) == len(p.Payload) && (p.Payload == nil ==> result0.Payload == nil) && (p.Payload != nil ==> result0.Payload != nil && fresh(result0.Payload)) && eqseq(result0.Payload, 0, p.Payload, 0, len(p.Payload))
 //@ end
+
+// ===== C02: RTP parsing is memory-safe and bounded on arbitrary input =====
+//
+// requires nothing: any byte string, any receiver state of the right type
+// (a used Header whose CSRC/Extensions slices alias anything type-correct).
+
+// extsWithin(exts, m, buf, n): the first m extension values are sub-slices of buf[:n].
+//@ pure bool extsWithin(exts, m, buf, n) = forall k :: 0 <= k && k < m ==> sameobj(exts[k].payload, buf) && off(buf) <= off(exts[k].payload) && off(exts[k].payload) + len(exts[k].payload) <= off(buf) + n && len(exts[k].payload) >= 0
+
+//@ spec (*Header).Unmarshal
+//@   modifies h.*, h.CSRC[*cap], h.Extensions[*cap]
+//@   ensures hdrlen_in_input [C02]: err == nil ==> 12 <= n && n <= len(buf)
+//@   ensures fixed_fields [C02,C03]: err == nil ==> int(h.Version) == bits(buf[0], 7, 6) && (h.Padding <==> bits(buf[0], 5, 5) == 1) && (h.Extension <==> bits(buf[0], 4, 4) == 1) && (h.Marker <==> bits(buf[1], 7, 7) == 1) && int(h.PayloadType) == bits(buf[1], 6, 0) && int(h.SequenceNumber) == be16(buf, 2) && int(h.Timestamp) == be32(buf, 4) && int(h.SSRC) == be32(buf, 8)
+//@   ensures csrc [C02,C03]: err == nil ==> len(h.CSRC) == bits(buf[0], 3, 0) && (forall i :: 0 <= i && i < len(h.CSRC) ==> int(h.CSRC[i]) == be32(buf, 12 + 4*i))
+//@   ensures no_ext [C02,C03]: err == nil && bits(buf[0], 4, 4) == 0 ==> len(h.Extensions) == 0 && n == 12 + 4*bits(buf[0], 3, 0)
+//@   ensures no_ext_profile [C02]: err == nil && bits(buf[0], 4, 4) == 0 ==> h.ExtensionProfile == 0
+//@   ensures ext_profile [C02,C03]: err == nil && bits(buf[0], 4, 4) == 1 ==> int(h.ExtensionProfile) == be16(buf, 12 + 4*bits(buf[0], 3, 0)) && n >= 16 + 4*bits(buf[0], 3, 0)
+//@   ensures ext_values_are_input [C02]: err == nil ==> extsWithin(h.Extensions, len(h.Extensions), buf, n)
+//@   loop 0: invariant filled [C02,C03]: len(h.CSRC) == bits(buf[0], 3, 0) && rangeindex <= len(h.CSRC) - 1 && (forall i :: 0 <= i && i <= rangeindex ==> int(h.CSRC[i]) == be32(buf, 12 + 4*i))
+//@   loop 0: invariant stable [C02,C03]: n == 12 + 4*bits(buf[0], 3, 0) && n <= len(buf) && int(h.Version) == bits(buf[0], 7, 6) && (h.Padding <==> bits(buf[0], 5, 5) == 1) && (h.Extension <==> bits(buf[0], 4, 4) == 1) && (h.Marker <==> bits(buf[1], 7, 7) == 1) && int(h.PayloadType) == bits(buf[1], 6, 0) && int(h.SequenceNumber) == be16(buf, 2) && int(h.Timestamp) == be32(buf, 4) && int(h.SSRC) == be32(buf, 8)
+//@   loop 1: invariant bounds [C02]: 16 + 4*bits(buf[0], 3, 0) <= n && n <= len(buf) && extensionEnd <= len(buf)
+//@   loop 1: invariant ext_backing [C02]: fresh(h.Extensions) || (sameobj(h.Extensions, old(h.Extensions)) && off(h.Extensions) == off(old(h.Extensions)) && cap(h.Extensions) == cap(old(h.Extensions)))
+//@   loop 1: invariant exts [C02]: extsWithin(h.Extensions, len(h.Extensions), buf, n)
+//@   loop 1: invariant stable [C02,C03]: len(h.CSRC) == bits(buf[0], 3, 0) && (forall i :: 0 <= i && i < len(h.CSRC) ==> int(h.CSRC[i]) == be32(buf, 12 + 4*i)) && int(h.Version) == bits(buf[0], 7, 6) && (h.Padding <==> bits(buf[0], 5, 5) == 1) && (h.Extension <==> bits(buf[0], 4, 4) == 1) && (h.Marker <==> bits(buf[1], 7, 7) == 1) && int(h.PayloadType) == bits(buf[1], 6, 0) && int(h.SequenceNumber) == be16(buf, 2) && int(h.Timestamp) == be32(buf, 4) && int(h.SSRC) == be32(buf, 8) && int(h.ExtensionProfile) == be16(buf, 12 + 4*bits(buf[0], 3, 0))
+//@   loop 1: decreases extensionEnd - n
+//@ end
+
+//@ spec (*Packet).Unmarshal
+//@   modifies p.*, p.Header.CSRC[*cap], p.Header.Extensions[*cap]
+//@   ensures partition [C02]: err == nil ==> 12 <= off(p.Payload) - off(buf) && (off(p.Payload) - off(buf)) + len(p.Payload) + int(p.PaddingSize) == len(buf) && len(p.Payload) >= 0
+//@   ensures payload_is_input [C02]: err == nil ==> sameobj(p.Payload, buf)
+//@   ensures padding [C02,C03]: err == nil ==> (p.Header.Padding ==> int(p.PaddingSize) == int(buf[len(buf)-1])) && (!p.Header.Padding ==> p.PaddingSize == 0)
+//@   ensures fixed_fields [C02,C03]: err == nil ==> int(p.Header.Version) == bits(buf[0], 7, 6) && (p.Header.Padding <==> bits(buf[0], 5, 5) == 1) && (p.Header.Extension <==> bits(buf[0], 4, 4) == 1) && (p.Header.Marker <==> bits(buf[1], 7, 7) == 1) && int(p.Header.PayloadType) == bits(buf[1], 6, 0) && int(p.Header.SequenceNumber) == be16(buf, 2) && int(p.Header.Timestamp) == be32(buf, 4) && int(p.Header.SSRC) == be32(buf, 8)
+//@   ensures no_ext_profile [C02]: err == nil && bits(buf[0], 4, 4) == 0 ==> p.Header.ExtensionProfile == 0 && len(p.Header.Extensions) == 0
+//@   ensures csrc [C02,C03]: err == nil ==> len(p.Header.CSRC) == bits(buf[0], 3, 0) && (forall i :: 0 <= i && i < len(p.Header.CSRC) ==> int(p.Header.CSRC[i]) == be32(buf, 12 + 4*i))
+//@   ensures ext_values_are_input [C02]: err == nil ==> extsWithin(p.Header.Extensions, len(p.Header.Extensions), buf, off(p.Payload) - off(buf))
+//@ end
+
+//@ spec (*Header).GetExtension
+//@   ensures disabled [C02,C05]: !h.Extension ==> result0 == nil
+//@   ensures found [C02,C05]: h.Extension ==> (result0 == nil || (exists k :: 0 <= k && k < len(h.Extensions) && h.Extensions[k].id == id && sameobj(result0, h.Extensions[k].payload) && off(result0) == off(h.Extensions[k].payload) && len(result0) == len(h.Extensions[k].payload)))
+//@   ensures first_match [C02,C05]: h.Extension ==> forall k :: 0 <= k && k < len(h.Extensions) && h.Extensions[k].id == id && (forall m :: 0 <= m && m < k ==> h.Extensions[m].id != id) ==> sameobj(result0, h.Extensions[k].payload) && off(result0) == off(h.Extensions[k].payload) && len(result0) == len(h.Extensions[k].payload)
+//@   loop 0: invariant none_yet [C02,C05]: rangeindex <= len(h.Extensions) - 1 && (forall m :: 0 <= m && m <= rangeindex ==> h.Extensions[m].id != id)
+//@ end
+
+//@ spec (*Header).GetExtensionIDs
+//@   ensures disabled [C02,C05]: (!h.Extension || len(h.Extensions) == 0) ==> result0 == nil
+//@   ensures ids [C02,C05]: h.Extension && len(h.Extensions) > 0 ==> len(result0) == len(h.Extensions) && fresh(result0) && (forall k :: 0 <= k && k < len(h.Extensions) ==> result0[k] == h.Extensions[k].id)
+//@   loop 0: invariant sofar [C02,C05]: rangeindex <= len(h.Extensions) - 1 && len(ids) == rangeindex + 1 && fresh(ids) && ids != nil && cap(ids) >= len(h.Extensions) && (forall k :: 0 <= k && k <= rangeindex ==> ids[k] == h.Extensions[k].id)
+//@ end
